@@ -1,11 +1,12 @@
 import Lean.Data.Json
 import DEvo.Graph.Ordered
 import DEvo.Graph.Batches
+import Codec
 
 /-! Line protocol driver: one JSON object per input line, one JSON object per output line.
 Only model modules (no Mathlib/Batteries) are imported, so this links as a `lean_exe`. -/
 
-open Lean DEvo
+open Lean DEvo DEvo.Sig DEvo.Mut
 
 def jNatList (j : Json) : Except String (List Nat) := do
   let a ← j.getArr?
@@ -38,6 +39,18 @@ def handle (j : Json) : Except String Json := do
       let t ← u.getObjValAs? Nat "task"
       pure (⟨id, k, t⟩ : Graph.Unit'))
     pure (Json.mkObj [("exec", natsJ ((Graph.execOrder units).map (·.id)))])
+  | "simulate" =>
+    let sig ← Codec.sigOf (← j.getObjVal? "sig")
+    let ctx ← Codec.ctxOf (← j.getObjVal? "ctx")
+    let ms ← (← (← j.getObjVal? "mutations").getArr?).toList.mapM Codec.mutOf
+    let fl := Codec.flagsOf j
+    -- one at a time, reporting the index of the first rejected mutation
+    let rec go (i : Nat) (c : Ctx) (p : ProjectSig) : List Mutation → Json
+      | [] => Json.mkObj [("ok", Codec.sigJ p), ("app", c.appLabel)]
+      | m :: rest => match simulate sqliteEnv fl c m p with
+        | .ok (p', c') => go (i + 1) c' p' rest
+        | .error e => Json.mkObj [("err", e.name), ("at", toJson i)]
+    pure (go 0 ctx sig ms)
   | _ => .error s!"unknown op {op}"
 
 partial def loop (hin : IO.FS.Stream) (hout : IO.FS.Stream) : IO Unit := do
